@@ -15,6 +15,9 @@ import sys
 import threading
 from collections import Counter
 
+import re
+
+_HEX64 = re.compile(r"(?<![0-9a-f])[0-9a-f]{64}(?![0-9a-f])")
 REAL = {}
 
 
@@ -166,6 +169,7 @@ class Seam:
         self.installed = False
         self.puts = []  # (kind, relpath) of completed data placements
         self.enabled = True
+        self.idx_names = {}
 
     def reset(self, root=None, order_rng=None):
         """Start a fresh sub-run in the same process (new sub-world)."""
@@ -180,6 +184,7 @@ class Seam:
         self.monitors = []
         self.tok = Counter()
         self.puts = []
+        self.idx_names = {}
 
     # ------------------------------------------------------------------ util
     def inside(self, p):
@@ -207,7 +212,13 @@ class Seam:
         if not p.startswith("/"):
             p = os.path.abspath(p)
         if p.startswith(self.root + "/"):
-            return p[len(self.root) + 1 :]
+            p = p[len(self.root) + 1 :]
+            if "/index/" in p or p.startswith("index/"):
+                # ObjectDBIndex directories are named by sha256(absolute store
+                # url): replace by an ordinal of first appearance so that the
+                # log does not depend on the world's absolute path
+                p = _HEX64.sub(lambda m: "<idx%d>" % self.idx_names.setdefault(m.group(0), len(self.idx_names)), p)
+            return p
         return p
 
     def actor(self):
